@@ -113,8 +113,10 @@ def run(res, prop, tier, seed, work, replay=None):
                               {"engine": "ledger", "signature": sig, "seed": seed, "tier": tier, "edge": e}) if who == prop else ""
         res.mismatch(who, sig, "history %d step %d: block mutation '%s' was %s by the real node (%s); Ledger.tla says: %s"
                      % (e["hist"], e["step"], mut, e["res"], e.get("err", "")[:80], reason), rp)
-    if dead:
+    if dead and not res.mismatches:
         raise Infra("%d valid publisher block(s) were rejected by the follower: the histories cannot be driven (not a verdict on %s)" % (dead, prop))
+    if dead:
+        print("NOTE: %d valid publisher block(s) were rejected by the node (no clause of %s; the history ends there)" % (dead, prop))
     kinds = collections.Counter("%s/%s" % (e["mut"], e["res"]) for e in es)
     accepted = sum(1 for e in es if e["res"] == "accepted")
     distinct = len({json.dumps([e["pre"]["headHash"], e["blk"]], sort_keys=True) for e in es})
